@@ -33,9 +33,14 @@ func (s *Syncer) parallelSync(ctx context.Context, cs consensus.State, headers [
 		err    error
 	}
 
-	// divide headers among requests, max 100 blocks per request
-	const blocksPerReq = 100
-	reqs := make([]Req, (len(headers)+blocksPerReq-1)/blocksPerReq)
+	// divide headers among requests, max 100 blocks per request; never ask
+	// for more than the configured maximum, peers configured alike would
+	// truncate the response and the batch could never complete
+	blocksPerReq := uint64(100)
+	if s.config.MaxSendBlocks > 0 && s.config.MaxSendBlocks < blocksPerReq {
+		blocksPerReq = s.config.MaxSendBlocks
+	}
+	reqs := make([]Req, (uint64(len(headers))+blocksPerReq-1)/blocksPerReq)
 	for i := range reqs {
 		off := uint64(i) * blocksPerReq
 		numBlocks := min(blocksPerReq, uint64(len(headers[off:])))
